@@ -26,7 +26,8 @@ EXTRA_TARGETS = ("Codec/Run.vo",)
 EXTS = ["xtc", "trr", "dcd", "dtr"]
 RULE = ("trajectories are lists of float32 bit patterns drawn per magnitude class (tiny/unit/big/boundary of "
         "_format_83 and of the 8.3 fields/rounding ties/signed zeros/clustered for XTC runs/over the field limit) "
-        "x frames 1..6 x atoms {1..30} x cell {none, ortho, triclinic, per-frame} x times {default, non-uniform}; dilute systems whose neighbour spacing "
+        "x frames 1..6 x atoms {1..30} x cell {none, ortho, triclinic, per-frame} x times {default, non-uniform}; one hot coordinate per decade 1e-3..1e7 nm for both signs and cell lengths per decade 1..1e4 nm (text formats; oracle: refused or "
+        "written correctly), the refusal limits of every fixed-width field +-6 ulp; dilute systems whose neighbour spacing "
         "puts the XTC small-size index on every slot of magicints[]; a history axis (object saved / box vectors, volumes, periodic "
         "distances evaluated with an initial cell, then the cell replaced via unitcell_vectors, unitcell_lengths+angles, in-place "
         "and per-frame in-place assignment) before the saves; "
@@ -367,6 +368,11 @@ XTC_MAGIC = [0, 0, 0, 0, 0, 0, 0, 0, 0, 8, 10, 12, 16, 20, 25, 32, 40, 50, 64, 8
              1048576, 1321122, 1664510, 2097152, 2642245, 3329021, 4194304, 5284491, 6658042, 8388607, 10568983,
              13316085, 16777216]
 DILUTE_EXTS = [".xtc", ".trr", ".h5"]
+TEXT_EXTS = [".mdcrd", ".xyz", ".lammpstrj", ".gro", ".pdb", ".rst7"]
+REFUSAL_BOUNDS = [Fr(-999999, 10000), Fr(9999999, 10000),          # mdcrd %8.3f, _format_83 first branch (angstrom)
+                  Fr(-9999999, 10), Fr(99999999, 10),               # _format_83 second branch / ValueError
+                  Fr(-9999995, 10000), Fr(99999995, 10000),         # gro %8.3f (nm)
+                  Fr(-100), Fr(1000)]                               # rst7 %12.7f (angstrom)
 
 
 def gen_dilute_frame(rng, n_atoms, slot):
@@ -449,7 +455,7 @@ def gen_traj(rng, cls, n_atoms, n_frames, cell, times, slot=None):
 
 def saves_for(rng, tj, quick):
     sv = []
-    for ext in (DILUTE_EXTS if tj["cls"] == "dilute" else ALL_EXTS):
+    for ext in (DILUTE_EXTS if tj["cls"] == "dilute" else TEXT_EXTS if tj["cls"] in ("decade", "limit", "celldecade") else ALL_EXTS):
         opts = {}
         if ext == ".gro":
             opts = {"precision": rng.choice([1, 2, 3, 3, 4, 5, 6])}
@@ -509,6 +515,31 @@ def build_trajs(ctx):
                       rng.choice(["none", "ortho", "tric"]), "nonuniform", slot=slot)
         tj["slot"] = slot
         trajs.append(tj)
+    # magnitudes: every decade from 1e-3 nm to beyond every field limit, both signs, one hot coordinate per trajectory
+    # (a value that must be refused would hide the others); text formats; oracle "refused, or the number is right"
+    for d in range(-3, 8):
+        for sgn in (1.0, -1.0):
+            na, nf = rng.choice([2, 3, 4]), rng.randint(1, 2)
+            tj = gen_traj(rng, "unit", na, nf, rng.choice(["none", "ortho"]), "nonuniform")
+            tj["cls"] = "decade"
+            hot = f2b(sgn * rng.uniform(1.0, 9.99) * 10.0 ** d)
+            tj["xyz"][rng.randrange(nf)][rng.randrange(3 * na)] = hot
+            tj["hot"] = [d, sgn]
+            trajs.append(tj)
+    # the limits at which a format must start refusing, a few ulps on both sides (thorough sweeps all of -6..6 below)
+    if quick:
+        for c in REFUSAL_BOUNDS:
+            b0 = f2b(float(c))
+            for k in (-6, -1, 0, 1, 6):
+                trajs.append({"n_atoms": 2, "xyz": [[one(0.25), b0 + k, one(-0.5), one(1.0), one(2.0), b0 + k]], "cls": "limit",
+                              "time": [one(0.0)], "cell": None})
+    # cell lengths: every decade up to and beyond CRYST1 %9.3f / gro %10.5f / rst7 %12.7f
+    for d in range(0, 5):
+        L = [f2b(rng.uniform(1.0, 9.99) * 10.0 ** d) for _ in range(3)]
+        tj = gen_traj(rng, "unit", 3, 1, "none", "nonuniform")
+        tj["cls"] = "celldecade"
+        tj["cell"] = {"lengths": [L], "angles": [[one(90.0)] * 3], "kind": "ortho"}
+        trajs.append(tj)
     # history axis: a long-lived object (saved before, box vectors / volumes / periodic distances evaluated) whose
     # cell is then replaced through each public way of assigning it; every later save must hold the CURRENT cell
     vias = ["vectors", "lengths_angles", "inplace", "inplace_frame"]
@@ -516,7 +547,7 @@ def build_trajs(ctx):
                [{"op": "save", "ext": ".gro"}, {"op": "save", "ext": ".h5"}], [{"op": "save", "ext": ".trr"}, {"op": "volumes"}]]
     k = 0
     for tj in trajs:
-        if tj.get("cell") and tj["cls"] not in ("probe", "over", "sweep") and (k := k + 1) % (2 if quick else 3) == 0:
+        if tj.get("cell") and tj["cls"] not in ("probe", "over", "sweep", "decade", "limit", "celldecade") and (k := k + 1) % (2 if quick else 3) == 0:
             T = len(tj["xyz"])
             tj["history"] = {"initial_cell": {"lengths": [[one(3.0)] * 3] * T, "angles": [[one(90.0)] * 3] * T},
                              "steps": touches[(k // 2) % len(touches)], "set_via": vias[(k // 2) % len(vias)]}
@@ -660,6 +691,14 @@ def in_field_range(tj, ext, opts):
                 continue          # whitespace separated: no field limit
             elif not (lo + half < v < hi - half):
                 return False
+    if tj.get("cell"):          # fixed-width cell fields: CRYST1 %9.3f (A), gro box %10.5f (nm), rst7 %12.7f (A)
+        cl = {".pdb": (10, Fr(999999995, 10000)), ".pdb.gz": (10, Fr(999999995, 10000)), ".gro": (1, Fr(999999995, 1000000)),      # read back with split(): needs the leading blank
+              ".rst7": (10, Fr(99999999995, 10000000))}.get(ext)
+        if cl:
+            for row in tj["cell"]["lengths"]:
+                for b in row:
+                    if not (fr32(b) * cl[0] < cl[1]):
+                        return False
     return True
 
 
@@ -709,8 +748,10 @@ def check_loaded(ctx, case, tj, sv, res, mem, skip_time=False):
              {"n_frames": lo["n_frames"], "n_atoms": lo["n_atoms"]}, {"n_frames": T, "n_atoms": n},
              kind="shape", n_atoms=n, explained_by=case.get("explained_by"), header=opts.get("header"), multi=T > 1)
         return
-    if not inr:
+    if not inr and STD[ext][1] in ("bin", "xtc"):
         return
+    # beyond the field limit of a text format the oracle stays: either refused with an error (handled above), or the
+    # numbers that come back are the numbers that were saved -- never silently different
     flat = [b for f in tj["xyz"] for b in f]
     worst = None
     for k, (b0, b1) in enumerate(zip(flat, lo["xyz"])):
@@ -720,9 +761,12 @@ def check_loaded(ctx, case, tj, sv, res, mem, skip_time=False):
             worst = (k, float(x0), float(x1), float(t))
             break
     if worst:
-        fail(ctx, case, "%s: load(save(t)) coordinates differ by more than the format's precision" % ext,
+        fail(ctx, case, "%s: load(save(t)) coordinates differ by more than the format's precision%s" % (
+                 ext, "" if inr else " (value beyond the field limit neither refused nor written correctly)"),
              {"index": worst[0], "loaded": worst[2]}, {"original": worst[1], "bound": worst[3]}, kind="silent_diff",
-             what="xyz", n_atoms=n)
+             what="xyz", n_atoms=n, beyond_limit=not inr)
+    if not inr:
+        return
     # time
     tmode = {".h5": 1, ".xtc": 1, ".trr": 1, ".nc": 1, ".netcdf": 1, ".ncdf": 1, ".gro": 1, ".dtr": 1,
              ".rst7": 1, ".ncrst": 1}.get(ext)
